@@ -80,6 +80,9 @@ pub enum Case {
         pre: Vec<CReq>,
         a: Vec<CReq>,
         b: Vec<CReq>,
+        /// an optional third client (empty = two clients)
+        #[serde(default)]
+        c: Vec<CReq>,
         /// both clients finish with a shutdown request of their own (concurrently): exactly one of them is handed the store
         #[serde(default)]
         both_shutdown: bool,
@@ -127,9 +130,9 @@ impl Prop for C14 {
          subscribers, entries} per document predicts the success class of every reply, close's boolean, get_state, and the contents; \
          a failed request must leave everything unchanged; the store handed back by shutdown must contain every acknowledged write; \
          non-trivial = some document is opened >= 2 times and closed >= 2 times with requests in between, a request hits a closed \
-         document, and sync is toggled. Concurrent variant: after a sequential prefix two clients issue <= 5 requests each from two \
-         OS threads; the recorded invoke/response history must be linearizable with respect to the same model (Wing-Gong search over \
-         <= 10 operations), whatever interleaving the OS produced; non-trivial there = the two clients' operations overlapped in time \
+         document, and sync is toggled. Concurrent variant: after a sequential prefix two clients issue <= 5 requests each (or three clients \
+         <= 4 each) from their own OS threads; the recorded invoke/response history must be linearizable with respect to the same \
+         model (Wing-Gong search over <= 12 operations), whatever interleaving the OS produced; non-trivial there = the two clients' operations overlapped in time \
          and at least one write was acknowledged. Pipelined variant: one client enqueues 2..=12 requests without awaiting any reply; \
          the replies and the final contents must equal sequential execution in issue order (non-trivial = a later request's reply \
          depends on an earlier write or open/close of the same batch); distinct by serialised case"
@@ -177,10 +180,14 @@ impl Prop for C14 {
                 2 => Just(CReq::GetState),
             ]
         };
-        let conc = (vec(creq(), 0..=3), vec(creq(), 1..=5), vec(creq(), 1..=5), prop::bool::weighted(0.3)).prop_map(|(pre, a, b, both_shutdown)| Case::Concurrent { pre, a, b, both_shutdown });
+        let conc = (vec(creq(), 0..=3), vec(creq(), 1..=5), vec(creq(), 1..=5), prop::bool::weighted(0.3))
+            .prop_map(|(pre, a, b, both_shutdown)| Case::Concurrent { pre, a, b, c: vec![], both_shutdown });
+        // three clients, <= 4 requests each (the linearizability search stays below 13 operations)
+        let conc3 = (vec(creq(), 0..=3), vec(creq(), 1..=4), vec(creq(), 1..=4), vec(creq(), 1..=4), prop::bool::weighted(0.3))
+            .prop_map(|(pre, a, b, c, both_shutdown)| Case::Concurrent { pre, a, b, c, both_shutdown });
         let pipe = (vec(creq(), 0..=3), vec(creq(), 2..=12)).prop_map(|(pre, batch)| Case::Pipelined { pre, batch });
         let aband = (vec(creq(), 0..=3), vec((creq(), prop::bool::weighted(0.4)), 2..=14)).prop_map(|(pre, reqs)| Case::Abandoned { pre, reqs });
-        prop_oneof![12 => seq, 4 => conc, 2 => pipe, 1 => aband].boxed()
+        prop_oneof![12 => seq, 3 => conc, 1 => conc3, 2 => pipe, 1 => aband].boxed()
     }
 
     fn check(ctx: &mut Ctx, c: &Case) -> Outcome {
@@ -193,7 +200,7 @@ impl Prop for C14 {
                 }
                 run(ctx, c, &mut o)
             }
-            Case::Concurrent { pre, a, b, both_shutdown } => concurrent(ctx, pre, a, b, *both_shutdown, &mut o),
+            Case::Concurrent { pre, a, b, c, both_shutdown } => concurrent(ctx, pre, &[a.as_slice(), b.as_slice(), c.as_slice()], *both_shutdown, &mut o),
             Case::Pipelined { pre, batch } => pipelined(ctx, pre, batch, &mut o),
             Case::Abandoned { pre, reqs } => abandoned(ctx, pre, reqs, &mut o),
         };
@@ -788,7 +795,11 @@ fn linearizable(start: &Mini, ops: &[Rec], done: &mut Vec<bool>, model: &Mini, f
     false
 }
 
-fn concurrent(ctx: &mut Ctx, pre: &[CReq], a: &[CReq], b: &[CReq], both_shutdown: bool, o: &mut Outcome) -> R<()> {
+fn concurrent(ctx: &mut Ctx, pre: &[CReq], clients: &[&[CReq]], both_shutdown: bool, o: &mut Outcome) -> R<()> {
+    let clients: Vec<&[CReq]> = clients.iter().copied().filter(|c| !c.is_empty()).collect();
+    if clients.len() >= 3 {
+        o.class("concurrent/three-clients");
+    }
     use std::sync::atomic::{AtomicU64, Ordering};
     use std::sync::Arc;
     o.class("concurrent");
@@ -813,7 +824,7 @@ fn concurrent(ctx: &mut Ctx, pre: &[CReq], a: &[CReq], b: &[CReq], both_shutdown
         return Ok(());
     }
     let clock = Arc::new(AtomicU64::new(1));
-    let barrier = Arc::new(std::sync::Barrier::new(2));
+    let barrier = Arc::new(std::sync::Barrier::new(clients.len()));
     let run_client = |reqs: Vec<CReq>, h: SyncHandle, clock: Arc<AtomicU64>| {
         let barrier = barrier.clone();
         std::thread::spawn(move || {
@@ -834,12 +845,16 @@ fn concurrent(ctx: &mut Ctx, pre: &[CReq], a: &[CReq], b: &[CReq], both_shutdown
             })
         })
     };
-    let ta = run_client(a.to_vec(), h.clone(), clock.clone());
-    let tb = run_client(b.to_vec(), h.clone(), clock.clone());
-    let (ra, sa) = ta.join().map_err(|_| "client A panicked".to_string())?;
-    let (rb, sb) = tb.join().map_err(|_| "client B panicked".to_string())?;
-    let overlapped = ra.iter().any(|x| rb.iter().any(|y| x.invoke < y.response && y.invoke < x.response));
-    let acked_write = ra.iter().chain(rb.iter()).any(|r| matches!(r.req, CReq::InsertLocal(..) | CReq::InsertRemote(..) | CReq::DeletePrefix(..)) && !matches!(r.reply, Reply::Err));
+    let threads: Vec<_> = clients.iter().map(|c| run_client(c.to_vec(), h.clone(), clock.clone())).collect();
+    let mut recs: Vec<Vec<Rec>> = vec![];
+    let mut handed = vec![];
+    for t in threads {
+        let (r, s) = t.join().map_err(|_| "a client thread panicked".to_string())?;
+        recs.push(r);
+        handed.push(s);
+    }
+    let overlapped = (0..recs.len()).any(|i| (0..i).any(|j| recs[i].iter().any(|x| recs[j].iter().any(|y| x.invoke < y.response && y.invoke < x.response))));
+    let acked_write = recs.iter().flatten().any(|r| matches!(r.req, CReq::InsertLocal(..) | CReq::InsertRemote(..) | CReq::DeletePrefix(..)) && !matches!(r.reply, Reply::Err));
     if overlapped {
         o.class("concurrent/operations-overlapped");
     }
@@ -850,7 +865,7 @@ fn concurrent(ctx: &mut Ctx, pre: &[CReq], a: &[CReq], b: &[CReq], both_shutdown
     let final_entries = if both_shutdown {
         o.class("concurrent/both-clients-shut-down");
         let mut stores = vec![];
-        for s in [sa, sb].into_iter().flatten() {
+        for s in handed.into_iter().flatten() {
             match s {
                 Err(_) => return Err("harness-timeout: a shutdown request was not answered within 20 s".into()),
                 Ok(Ok(st)) => stores.push(st),
@@ -860,7 +875,7 @@ fn concurrent(ctx: &mut Ctx, pre: &[CReq], a: &[CReq], b: &[CReq], both_shutdown
         if stores.len() != 1 {
             o.fail(
                 "C14/shutdown-store",
-                format!("two clients asked for shutdown concurrently: {} of them were handed the store (exactly one must be, with every acknowledged write in it)", stores.len()),
+                format!("{} clients asked for shutdown concurrently: {} of them were handed the store (exactly one must be, with every acknowledged write in it)", clients.len(), stores.len()),
             );
             return Ok(());
         }
@@ -871,17 +886,19 @@ fn concurrent(ctx: &mut Ctx, pre: &[CReq], a: &[CReq], b: &[CReq], both_shutdown
             dump(&mut store, ns)
         })?
     };
-    let mut ops = ra.clone();
-    ops.extend(rb.iter().cloned());
+    let ops: Vec<Rec> = recs.iter().flatten().cloned().collect();
     let mut done = vec![false; ops.len()];
     if !linearizable(&model, &ops, &mut done, &model, &final_entries) {
         o.fail(
             "C14/not-linearizable",
             format!(
-                "no order of the two clients' operations that respects real time makes the model produce these replies and final contents {}: A = {:?}; B = {:?}",
+                "no order of the clients' operations that respects real time makes the model produce these replies and final contents {}: {}",
                 describe_all(&final_entries),
-                ra.iter().map(|r| (format!("{:?}", r.req), format!("{:?}", r.reply), r.invoke, r.response)).collect::<Vec<_>>(),
-                rb.iter().map(|r| (format!("{:?}", r.req), format!("{:?}", r.reply), r.invoke, r.response)).collect::<Vec<_>>()
+                recs.iter()
+                    .enumerate()
+                    .map(|(i, rs)| format!("client {} = {:?}", i, rs.iter().map(|r| (format!("{:?}", r.req), format!("{:?}", r.reply), r.invoke, r.response)).collect::<Vec<_>>()))
+                    .collect::<Vec<_>>()
+                    .join("; ")
             ),
         );
     }
